@@ -168,7 +168,7 @@ def check(ctx, prog, stats, samples):
         win = [x for x in app if all(beats(x, y) for y in app if y is not x)]
         exp = ["nomethod"] if not app else ["run", win[0]["id"]] if len(win) == 1 else ["ambig"]
         if exp != out:
-            if art:
+            if art or (exp == ["ambig"] and R.kf01_shape_generic(app, out, le)):
                 ctx.known_hit("KF-01", case)
                 stats["kf01"] += 1
             else:
@@ -194,8 +194,22 @@ def run(ctx):
 
 
 def replay(ctx, payload):
-    return True
+    """re-run the recorded program through the same comparisons; reproduced iff it raises a violation again"""
+    stats = {"evaluations": 0, "hist": collections.Counter(), "distinct": set(), "kf01": 0, "programs": 0}
+    before = len(ctx.violations)
+    check(ctx, payload["case"], stats, [])
+    return len(ctx.violations) > before
 
 
 def replay_finding(ctx, e):
-    return True
+    """KF-01's C14 witness: the implementation still runs the method recorded there although the reference rule says Ambiguous"""
+    wit = e.get("witness_C14")
+    if wit is None:
+        return e["status"] == "open"
+    w = world_from(wit["spec"])
+    b = progs.Built(w, wit["defs"])
+    vals = []
+    for a in wit["calls"][0]["args"]:
+        vals.append(w.instance(a[1]) if a[0] == "V" else typing.Any if a[0] == "ANY" else py_obj(w, a[1], a[2]))
+    out, _ = b.call(vals)
+    return out == wit["expect_impl"]
